@@ -61,6 +61,12 @@ def configs(tier):
                 'id_dtypes': ['int32', 'int32'], 'time_dtypes': ['uint64', 'uint64'], 'sym_ids': False})
     out.append({'P': 2, 'spikes': [1, 1], 'nch': [2, 2], 'ntpl': [1, 2], 'nsw': 2, 'sym': 'spikes',
                 'id_dtypes': ['int32', 'int64'], 'time_dtypes': ['uint64', 'uint64']})
+    # narrow id dtypes in a non-first probe (what a dataset with few clusters is saved with)
+    out.append({'P': 3, 'spikes': [1, 1, 1], 'nch': [2, 2, 2], 'ntpl': [2, 1, 1], 'nsw': 2, 'sym': 'spikes',
+                'id_dtypes': ['int32', 'int16', 'int32'], 'time_dtypes': ['uint64', 'uint64', 'uint64'],
+                'sym_ids': False, 'one_tsv': True})
+    out.append({'P': 2, 'spikes': [1, 2], 'nch': [2, 2], 'ntpl': [2, 1], 'nsw': 2, 'sym': 'spikes',
+                'id_dtypes': ['uint8', 'uint16'], 'time_dtypes': ['uint64', 'uint64'], 'sym_ids': False})
     return out
 
 
